@@ -5,7 +5,7 @@ run and restored afterwards; never run concurrently with another check."""
 import json, os, subprocess, sys
 ROOT = os.path.dirname(os.path.dirname(os.path.abspath(__file__)))
 SEEDED = os.path.join(ROOT, "seeded")
-EXTRA = {"C07-2": ["C08"], "C04-1": ["C19"], "C17-2": ["C18"], "C02-1": ["C11"], "C19-2": ["C16"],
+EXTRA = {"C07-2": ["C08"], "C07-9": ["C08"], "C04-1": ["C19"], "C17-2": ["C18"], "C02-1": ["C11"], "C19-2": ["C16"],
          "C10-4": ["C11"], "C11-4": ["C02"], "C01-3": ["C04"],
          "C08-5": ["C07"], "C11-6": ["C08", "C07"], "C10-6": ["C11"], "C09-6": ["C11"], "C11-5": ["C02"], "C19-5": ["C16"], "C10-8": ["C11"]}
 def sh(cmd, cwd=None, timeout=3000):
